@@ -10,9 +10,9 @@ for d in sorted(glob.glob(SRC + "/out-C*/m*")):
     if not os.path.isdir(d) or not os.path.exists(d + "/eval.txt") or not os.path.exists(d + "/patch.diff"):
         continue
     ev = open(d + "/eval.txt").read()
-    mm = re.search(r"out-(C\d+)(b?)/", d)
+    mm = re.search(r"out-(C\d+)([bc]?)/", d)
     pid = mm.group(1)
-    name = ("b-" if mm.group(2) else "") + os.path.basename(d)      # second-wave changes: <ID>-b-m<i>
+    name = (mm.group(2) + "-" if mm.group(2) else "") + os.path.basename(d)      # later waves: <ID>-b-m<i>, <ID>-c-m<i>
     confirmed = ("demo_unchanged: pass" in ev and "demo_changed: fail" in ev and re.search(r"suite_changed: passed \d+ failed 0", ev))
     checks = re.findall(r"check (C\d+) rc=(\d+) (\d+) violation", ev)
     if not confirmed or not checks:
